@@ -70,6 +70,16 @@ CHECKS = {
             {'name': 'Harness_C13_context', 'pkg': 'saml', 'replay': 'direct', 'must_reach': ['context', 'refused']},
         ],
     },
+    'C14': {
+        'level_text': 'z3 decides, for all binding and location strings in the stated URL classes, that a successfully unmarshalled Endpoint / IndexedEndpoint carries http(s) Location and ResponseLocation for the standard bindings and blank ones otherwise; replayed natively through encoding/xml.',
+        'level_note': 'real Endpoint.UnmarshalXML, IndexedEndpoint.UnmarshalXML, checkEndpointLocation executed from SSA; encoding/xml decoding modelled as filling the alias struct with the marshalled value; url.Parse abstract (scheme exact on texts starting http://, https://, javascript:, data: or containing no colon - other texts are outside the bound). The html/template half of the property is not decided by this check.',
+        'harnesses': [
+            # 'rejected' can be reached through the abstract url.Parse failing, which the native parser need not do: not a validation label
+            {'name': 'Harness_C14_endpoint', 'pkg': 'saml', 'replay': 'direct', 'must_reach': ['accepted', 'rejected', 'accepted-known-binding'],
+             'validate_labels': ['accepted', 'accepted-known-binding']},
+            {'name': 'Harness_C14_indexed', 'pkg': 'saml', 'replay': 'direct', 'must_reach': ['accepted', 'rejected'], 'validate_labels': ['accepted']},
+        ],
+    },
     'C10': {
         'level_text': 'stripPadding(appendPadding(p,bs)) = p decided by z3 for every plaintext content of every length 0..4*bs+1, bs in {8,16}, on the SSA of the real functions; counterexamples replayed natively.',
         'level_note': 'bounds: plaintext length 0..4*bs+1 case-split, contents symbolic; no stubs on this kernel. Outside: longer plaintexts; the cipher/key-transport layers (being added).',
